@@ -153,21 +153,37 @@ def quantile(cdf, q, lo, hi):
     return 0.5 * (a + b)
 
 
+# cases whose probability vector does not sum to one exactly: the statement does not fix the distribution to
+# better than the tolerance, so only the support is judged (the bins are those of the normalised vector)
+NOFIT = {"hyperexp_3_sum_0_9995", "hyperexp_2_sum_1_0005"}
 ORG = {"uniform_1e6": 1000000, "beta_3_3_100_101": 100, "normal_10_eighth": 10, "triangular_highmode": 15}
 
 
 def dec9(x):
-    """x as <<m, e>> with m * 10^-e ~ x, |m| < 10^9 (9 significant digits), 0 <= e <= 18"""
+    """x as <<m, e>> with m * 10^-e ~ x, |m| < 10^9 (9 significant digits), -18 <= e <= 120"""
     if x == 0.0:
         return (0, 0)
     e = 8 - int(math.floor(math.log10(abs(x))))
-    e = max(0, min(18, e))
+    e = max(-18, min(120, e))
     m = int(round(x * 10.0 ** e))
     while abs(m) >= 10 ** 9:
         e -= 1
         m = int(round(x * 10.0 ** e))
-    assert e >= 0 and abs(m) < 2 ** 31
+    assert -18 <= e <= 120 and abs(m) < 2 ** 31
     return (m, e)
+
+
+PD = 32768      # bin probabilities are multiples of 1/PD
+
+
+def bin_weights(B):
+    """B equal bins of PD/B each; the first and the last are split into tail bins of 1, 1, 2, 4, ... (times 1/PD)"""
+    w = PD // B
+    tail = [1, 1]
+    while sum(tail) < w:
+        tail.append(tail[-1] * 2)
+    assert sum(tail) == w
+    return tail + [w] * (B - 2) + tail[::-1]
 
 
 # ------------------------------------------------------------------ the stated distributions
@@ -241,6 +257,8 @@ def cdf_of(s, par, v1, v2):
     if s == "hyperexponential":
         ms = [float(x) for x in v1]
         ps = [float(x) for x in v2]
+        tot = sum(ps)
+        ps = [q / tot for q in ps]
         return (lambda x: 0.0 if x <= 0 else sum(q * -math.expm1(-x / m) for q, m in zip(ps, ms)), 0.0, INF)
     if s == "std_gamma":
         a = p[0]
@@ -331,6 +349,8 @@ CONT = [
     ("hyperexp_1", "hyperexponential", R(), R(3), R(1), False),
     ("hyperexp_3", "hyperexponential", R(), R(1, 5, "1/4"), R("1/2", "3/10", "1/5"), False),
     ("hyperexp_2_degenerate", "hyperexponential", R(), R(2, 7), R(1, 0), False),
+    ("hyperexp_3_sum_0_9995", "hyperexponential", R(), R(1, 5, "1/4"), R("1/2", "3/10", "399/2000"), False),
+    ("hyperexp_2_sum_1_0005", "hyperexponential", R(), R(2, 7), R("1/2", "1001/2000"), False),
     ("std_gamma_1", "std_gamma", R(1), [], [], False),
     ("std_gamma_5half", "std_gamma", R("5/2"), [], [], False),
     ("std_gamma_30", "std_gamma", R(30), [], [], False),
@@ -469,9 +489,11 @@ def generate():
     L.append("(* GENERATED by tools/c16_tables.py - do not edit by hand.                     *)")
     L.append("(* Fit cases of property C16: sampler, admissible parameters (rationals        *)")
     L.append("(* <<num, den>>, in call order; v1 / v2 are the array arguments) and, for the   *)")
-    L.append("(* continuous distributions, the interior edges of B bins of equal probability  *)")
-    L.append("(* under the stated distribution (its k/B quantiles) as <<m, e>>:               *)")
-    L.append("(* edge = org + m * 10^-e (org: integer origin, used for narrow distributions). *)")
+    L.append("(* continuous distributions, bins: bin i has probability pw[i]/pd under the      *)")
+    L.append("(* stated distribution (a body of equal bins, the two outermost ones split into *)")
+    L.append("(* tail bins of 1, 1, 2, 4, ... /pd); edges are the quantiles that separate the *)")
+    L.append("(* bins, as <<m, e>>: edge = org + m * 10^-e (org: integer origin, used for     *)")
+    L.append("(* narrow distributions).                                                       *)")
     L.append("(* Discrete distributions carry maxv (last value with a bin of its own); their  *)")
     L.append("(* probabilities are computed exactly in Samplers.tla, except Poisson (tab:     *)")
     L.append("(* rows <<lo, hi, alo, ahi>>, probability of lo..hi (hi < lo: lo and above)      *)")
@@ -483,29 +505,32 @@ def generate():
     for (cid, s, par, v1, v2, big) in CONT:
         cdf, lo, hi = cdf_of(s, par, v1, v2)
         B = 256 if big else 64
+        pw = bin_weights(B)
         edges = []
         prev = None
-        for k in range(1, B):
-            x = quantile(cdf, k / B, lo, hi)
+        acc = 0
+        for wgt in pw[:-1]:
+            acc += wgt
+            x = quantile(cdf, acc / PD, lo, hi)
             back = cdf(x)
-            assert abs(back - k / B) < 1e-9, (cid, k, x, back)
+            assert abs(back - acc / PD) < 1e-10, (cid, acc, x, back)
             d = dec9(x - ORG.get(cid, 0))
             val = d[0] / 10.0 ** d[1]
-            assert prev is None or val > prev, (cid, k, prev, val)
+            assert prev is None or val > prev, (cid, acc, prev, val)
             prev = val
             edges.append(d)
         rows.append('  [id |-> "%s", s |-> "%s", kind |-> "cont", big |-> %s, par |-> %s, v1 |-> %s, v2 |-> %s,\n'
-                    '   maxv |-> 0, tabd |-> 0, tab |-> <<>>, org |-> %d,\n   edges |-> %s]'
-                    % (cid, s, "TRUE" if big else "FALSE", tla_seq(par, tla_rat), tla_seq(v1, tla_rat), tla_seq(v2, tla_rat), ORG.get(cid, 0),
-                       tla_seq(edges, lambda d: "<<%d,%d>>" % d)))
+                    '   fitted |-> %s, maxv |-> 0, tabd |-> 0, tab |-> <<>>, org |-> %d, pd |-> %d,\n   pw |-> %s,\n   edges |-> %s]'
+                    % (cid, s, "TRUE" if big else "FALSE", tla_seq(par, tla_rat), tla_seq(v1, tla_rat), tla_seq(v2, tla_rat),
+                       "FALSE" if cid in NOFIT else "TRUE", ORG.get(cid, 0), PD, tla_seq(pw), tla_seq(edges, lambda d: "<<%d,%d>>" % d)))
     for (cid, s, par, v1, v2, maxv) in DISC:
         rows.append('  [id |-> "%s", s |-> "%s", kind |-> "disc", big |-> FALSE, par |-> %s, v1 |-> %s, v2 |-> %s,\n'
-                    '   maxv |-> %d, tabd |-> 0, tab |-> <<>>, org |-> 0, edges |-> <<>>]'
+                    '   fitted |-> TRUE, maxv |-> %d, tabd |-> 0, tab |-> <<>>, org |-> 0, pd |-> 0, pw |-> <<>>, edges |-> <<>>]'
                     % (cid, s, tla_seq(par, tla_rat), tla_seq(v1, tla_rat), tla_seq(v2, tla_rat), maxv))
     for (cid, r, maxv) in POISSON:
         tab = poisson_table(r, maxv)
         rows.append('  [id |-> "%s", s |-> "poisson", kind |-> "disc", big |-> FALSE, par |-> %s, v1 |-> <<>>, v2 |-> <<>>,\n'
-                    '   maxv |-> %d, tabd |-> %d, tab |-> %s, org |-> 0, edges |-> <<>>]'
+                    '   fitted |-> TRUE, maxv |-> %d, tabd |-> %d, tab |-> %s, org |-> 0, pd |-> 0, pw |-> <<>>, edges |-> <<>>]'
                     % (cid, tla_seq([r], tla_rat), maxv, POISSON_D, tla_seq(tab, lambda t: "<<%d,%d,%d,%d>>" % t)))
     L.append(",\n".join(rows))
     L.append(">>")
